@@ -97,6 +97,7 @@ class Machine:
                 rs.append(cmd[k])
         for k in ("xs", "args"):
             rs += list(cmd.get(k, []))
+        rs += [r for _, r in cmd.get("kw", [])]
         if op == "objectNew":
             rs += [r for _, r in cmd["fs"]]
         return rs
@@ -157,7 +158,7 @@ class Machine:
         if op == "innerProduct":
             return g(cmd["a"]).inner_product(g(cmd["b"]))
         if op == "call":
-            return g(cmd["f"])(*[g(r) for r in cmd["args"]])
+            return g(cmd["f"])(*[g(r) for r in cmd["args"]], **{n: g(r) for n, r in cmd.get("kw", [])})
         raise ValueError("unknown command " + op)
 
     # -- public API --------------------------------------------------------------------------
@@ -173,10 +174,14 @@ class Machine:
         self.results.append({"s": err})
         return err
 
-    def run_fn(self, name, params, ret_ann, body):
+    def run_fn(self, name, params, ret_ann, body, plain=None):
         """Trace a nada_fn. `body(param_regs)` runs inside the function and returns the register to
         return. Emits beginFn … endFn around whatever the body executes."""
         begin = {"op": "beginFn", "name": name, "params": [[n, a] for n, a in params]}
+        if plain is not None:
+            # rendering hint for K10 (ignored by the model and by this interpreter): functions of one group are one
+            # undecorated Python function whose free variable is rebound before each use
+            begin["plain"] = plain
         self.events.append({"c": begin})
         slot = len(self.results)
         self.results.append({"s": None})
@@ -201,7 +206,8 @@ class Machine:
         exec(src, env)  # harness-local wrapper giving the function its name and parameter names
         fn = env[name]
         try:
-            res = nada_fn(fn, args_ty={n: ann_of(a) for n, a in params}, return_ty=SCALARS[ret_ann])
+            # explicit-type form; the dictionary is deliberately not in signature order (its order must not matter)
+            res = nada_fn(fn, args_ty={n: ann_of(a) for n, a in reversed(params)}, return_ty=SCALARS[ret_ann])
             err = None
         except Exception as exc:  # pylint: disable=broad-except
             res, err = DEAD, canon_err(exc)
@@ -262,7 +268,7 @@ def run_events(events):
                     block(i + 1, min(j, len(events)))
                     return end["ret"]
 
-                m.run_fn(c["name"], [tuple(p) for p in c["params"]], end["retAnn"], body)
+                m.run_fn(c["name"], [tuple(p) for p in c["params"]], end["retAnn"], body, plain=c.get("plain"))
                 i = j + 1
             elif c["op"] == "endFn":
                 i += 1      # unmatched: ignored
